@@ -120,6 +120,9 @@ var (
 func (rc *RunCtx) installBufs() {
 	bt := &bufTracker{live: map[*[]byte]int{}, released: map[*[]byte]bool{}}
 	rc.bufs = bt
+	if raceEnabled {
+		return // the tracking allocator shares state between tasks; keep the race build clean
+	}
 	pool.GetBuf = func(size int) *[]byte {
 		b := make([]byte, size)
 		bt.n++
